@@ -350,16 +350,18 @@ def judge_request(law, a, b, c, d, outcome, exact, cross):
         return {"status": "held", "cmp": 1, "nontrivial": abs(ref) > mp.mpf(10) ** -30, "info": info}
     # diagnosis
     key = None
-    if a >= 1 and d == 0 and (b + c) % 2 == 0:
-        # constant (frequency-0) term of sin^b cos^c times E[X^a]: is exactly this contribution missing?
+    missing = mp.mpf(0)
+    if a >= 1 and (b + c) % 2 == 0:
+        # constant (frequency-0) term of sin^b cos^c times E[X^a]: the contribution lost when the t = 0 branch of a
+        # Piecewise characteristic function is differentiated
         k0 = mp.quad(lambda th: mp.sin(th) ** b * mp.cos(th) ** c, [0, mp.pi / 2, mp.pi, 3 * mp.pi / 2, 2 * mp.pi]) / (2 * mp.pi)
         missing = k0 * _mpf(laws.raw_moment(law, a))
-        if abs(missing) > mp.mpf(10) ** -20 and abs((ref - _mpf(pv)) - missing) <= mp.mpf(10) ** -14 * max(1, abs(missing)):
-            key = "zero-frequency-term-lost-in-cf-derivative"
+    if d == 0 and abs(missing) > mp.mpf(10) ** -20 and abs((ref - _mpf(pv)) - missing) <= mp.mpf(10) ** -14 * max(1, abs(missing)):
+        key = "zero-frequency-term-lost-in-cf-derivative"
     if is_mix:
         try:
             trig_only, e2 = oracle_mixed(law, a, b, c, 0, cross=False)
-            if close(pv, trig_only, 1e-15, e2)[0]:
+            if close(pv, trig_only, 1e-15, e2)[0] or (abs(missing) > 0 and close(pv, trig_only - missing, 1e-15, e2)[0]):
                 key = "trig-exp-mix-exp-factor-dropped"
         except laws.Divergent:
             pass
